@@ -142,6 +142,29 @@ def gen(tier, rng):
           "using F = scaled_integer<std::int32_t, power<-16>>; using G = scaled_integer<std::int64_t, power<-16>>;"
           " auto sum = G{wrap<F>(a)} + wrap<F>(b); return static_cast<float>(sum >> constant<1>{});",
           ["return static_cast<float>(std::int64_t{a} + b) * (1.F / 131072.F);", "return static_cast<float>(std::int64_t{a} + b) / 131072.F;"])
+    # mixed-exponent expressions against the hand-written shift-and-operate code, different reps on the two sides and both
+    # operand orders (a copy-paste slip in one of the two mirrored comparison specialisations shows only for a wider coarse
+    # operand on one particular side: seeded change M-C12-1)
+    from .C01 import sname, factor_lit, fits
+    mp = [(I64, I32), (I32, I64), (U64, I16), (I16, U64), (I64, I8), (U32, I64), (I32, I32)] if tier == "quick" else [(a, b) for a in reps for b in reps]
+    for cfg in cfgs:
+        for (A, B) in mp:
+            PA, PB = promote(A), promote(B)
+            for d in ((4,) if tier == "quick" else (1, 4, 9)):
+                for coarse in ("lhs", "rhs"):
+                    ea, eb = (0, -d) if coarse == "lhs" else (-d, 0)
+                    if not fits(PA if coarse == "lhs" else PB, 2, d):
+                        continue
+                    TA, TB = sname(A.name, ea), sname(B.name, eb)
+                    la = "(a * %s)" % factor_lit(PA, 2, d) if coarse == "lhs" else "a"
+                    lb = "(b * %s)" % factor_lit(PB, 2, d) if coarse == "rhs" else "b"
+                    for op in CMPS:
+                        obs.append(kern.Ob("%s/mixed-exponent/%s@%d,%s@%d/%s" % (cfg, A.short, ea, B.short, eb, op), "bool", [(A.name, "a"), (B.name, "b")],
+                                           "return wrap<%s>(a) %s wrap<%s>(b);" % (TA, op, TB), ["return %s %s %s;" % (la, op, lb)], cfg=cfg, meta=dict(nest="S")))
+                    R = uac(A, B)
+                    for op in ("+", "-"):
+                        obs.append(kern.Ob("%s/mixed-exponent/%s@%d,%s@%d/%s" % (cfg, A.short, ea, B.short, eb, op), R.name, [(A.name, "a"), (B.name, "b")],
+                                           "return unwrap(wrap<%s>(a) %s wrap<%s>(b));" % (TA, op, TB), ["return %s %s %s;" % (la, op, lb)], cfg=cfg, meta=dict(nest="S")))
     # result representation facts
     for nest in NESTINGS:
         for A in reps:
